@@ -34,6 +34,7 @@ UNIT_DEPS = {
     'prim_mul': ['mul', 'conv'],
     'round': ['core', 'pow10', 'types', 'context'],
     'config': ['types'],
+    'rem': ['core', 'scale', 'pow10'],
     'context': ['types', 'config', 'round'],
 }
 
@@ -61,7 +62,7 @@ NOT_APPLICABLE = {
     'C13': 'statement about the real function e^x to one ulp; contracts here are integer-only and the Taylor loop has no termination measure (DESIGN.md section 7)',
     'C17': 'feature-gated code generic over foreign serde traits and strings; no contract within reach (DESIGN.md section 7)',
 }
-for _p in ['C02', 'C05', 'C07', 'C08', 'C09', 'C10', 'C11', 'C12', 'C14', 'C15', 'C16', 'C19', 'C20']:
+for _p in ['C02', 'C05', 'C07', 'C08', 'C10', 'C11', 'C12', 'C14', 'C15', 'C16', 'C19', 'C20']:
     NOT_APPLICABLE[_p] = _WIP
 
 _NOTE_COMMON = ('Assumed: num-bigint/num-traits/num-integer contracts (spec/shim_base.rs, vf/shimgen.py), std specs, '
@@ -86,6 +87,14 @@ prop('C06', units=['round', 'scale', 'context', 'config', 'core', 'pow10'], leve
                  'mode table for every digit pair, sign and tail flag; with_scale truncation equals rounding Down; round(n) uses the '
                  'configured default mode (symbolic constant); extension multiplies by the exact power of ten'),
      level_note=_NOTE_COMMON + ' round_u32 is not yet under contract.',
+     technique=_TECH)
+
+prop('C09', units=['rem', 'scale', 'core', 'pow10'], level='proof',
+     level_text=('Verus proves for each of the four Rem impls and RemAssign, on its own body, that a return implies a non-zero divisor '
+                 '(the big-integer % diverges on zero), that the result scale is max(sa, sb) and that the unscaled result is the truncated '
+                 'remainder of the operands aligned to that scale; prelude lemma lemma_trem_props proves that this is a - b*trunc(a/b), '
+                 'smaller than |b| in magnitude, zero or of the sign of a, and independent of the sign of b'),
+     level_note=_NOTE_COMMON,
      technique=_TECH)
 
 prop('C18', units=['pow10', 'core', 'canon', 'scale'], level='proof',
